@@ -3,7 +3,8 @@
 // the activation every pending item and every blocked dispatch_sync caller runs.
 // Scenarios per depth: (4)/(5) serial / concurrent queue suspended from an item that runs synchronously as a barrier while a
 // blocked dispatch_sync caller and asynchronous items are already queued behind it, (0) serial queue suspended from outside, (1) serial queue suspended from its own item,
-// (2) concurrent queue suspended from a barrier item, (3) queue created inactive, suspended depth-1 times, activate last.
+// (2) concurrent queue suspended from a barrier item, (3) queue created inactive, suspended depth-1 times, activate last,
+// (7) queue created inactive, suspended depth times, activated first (nothing may start), then resumed depth times.
 // (6) hand-over of the last resume to another thread while the drainer leaves (see scenario_handover).
 // usage: c06_suspend <seed> [handover trials]; output as harness/tr_lane.c ("Q ..." header, "ORACLE ok|VIOL", "E ..." events)
 #define _GNU_SOURCE
@@ -37,7 +38,7 @@ static void *sync_suspender(void *c){ struct susp_arg *a=c; void (^blk)(void)=^{
   if(a->conc) dispatch_barrier_sync(a->q,blk); else dispatch_sync(a->q,blk); return NULL; }
 static void scenario(int kind, int depth, int qidx){
   atomic_int a_ran=0, s_ran=0, extra=0; __block atomic_int *ar=&a_ran, *sr=&s_ran, *ex=&extra;
-  dispatch_queue_attr_t attr = (kind==2||kind==5)? DISPATCH_QUEUE_CONCURRENT : DISPATCH_QUEUE_SERIAL; if(kind==3) attr=dispatch_queue_attr_make_initially_inactive(attr);
+  dispatch_queue_attr_t attr = (kind==2||kind==5)? DISPATCH_QUEUE_CONCURRENT : DISPATCH_QUEUE_SERIAL; if(kind==3||kind==7) attr=dispatch_queue_attr_make_initially_inactive(attr);
   dispatch_queue_t q=dispatch_queue_create("c06",attr); curq=qidx; CUR=q;
   printf("Q %d width %d stateoff %ld\n", qidx, (kind==2||kind==5)?4094:1, (long)((char*)_dispatch_verif_queue_state_addr(q)-(char*)q));
   int need = depth;   // resumes (or resumes + activate) needed
@@ -63,6 +64,7 @@ static void scenario(int kind, int depth, int qidx){
       else if(!s_ran) fail("blocked dispatch_sync caller did not run after the last resume: kind/depth",kind,depth,0); }
     if(!viol){ pthread_join(th2,NULL); dispatch_barrier_sync(q,^{}); CUR=NULL; dispatch_release(q); } else CUR=NULL;
     return; }
+  else if(kind==7){ for(int i=0;i<depth;i++) dispatch_suspend(q); need=depth+1; }    // created inactive, suspended, ACTIVATED FIRST: the suspensions are still owed
   else { for(int i=0;i<depth-1;i++) dispatch_suspend(q); }
   // work that must not start yet
   dispatch_async(q,^{ atomic_store(ar,1); });
@@ -71,7 +73,7 @@ static void scenario(int kind, int depth, int qidx){
   usleep(3000);
   for(int i=0;i<need;i++){
     if(a_ran||s_ran||extra) { fail("an item started while the queue was still suspended/inactive: kind/depth/resumes-issued",kind,depth,i); break; }
-    if(kind==3 && i==need-1) dispatch_activate(q); else dispatch_resume(q);
+    if((kind==3 && i==need-1) || (kind==7 && i==0)) dispatch_activate(q); else dispatch_resume(q);
     if(i<need-1 && (i%16==15 || i>=need-3)) usleep(1500); }
   if(!viol){ for(int w=0; w<5000 && !(a_ran&&s_ran); w++) usleep(1000);
     if(!a_ran) fail("pending async item did not run after the last resume/activate: kind/depth",kind,depth,0);
@@ -109,7 +111,7 @@ static void scenario_handover(int qidx, int trial){ dispatch_queue_t q=dispatch_
 int main(int argc,char**argv){ uint64_t seed=argc>1?strtoull(argv[1],0,0):1; rs=seed; evs=calloc(MAXEV,sizeof *evs);
   _dispatch_verif_atomic_cb=cb;
   static const int depths[]={1,2,31,32,33,63,64,65,95,96,97,127,128,129,200}; int nd=(int)(sizeof depths/sizeof *depths); int qi=0, sc=0;
-  for(int k=0;k<6 && !viol;k++) for(int d=0; d<nd && !viol; d++){ if(((seed+ (uint64_t)k*7 + (uint64_t)d)%3)==0 && depths[d]<96) continue; scenario(k,depths[d],qi++); sc++; }
+  for(int k=0;k<8 && !viol;k++) for(int d=0; d<nd && !viol; d++){ if(k==6) continue; if(((seed+ (uint64_t)k*7 + (uint64_t)d)%3)==0 && depths[d]<96) continue; scenario(k,depths[d],qi++); sc++; }
   for(int i=0;i<6 && !viol;i++){ scenario_external(qi++); sc++; }
   { int nt=argc>2?atoi(argv[2]):60; for(int i=0;i<nt && !viol;i++){ scenario_handover(qi++,i+(int)(seed%7)); sc++; } }
   _dispatch_verif_atomic_cb=0;
